@@ -567,3 +567,29 @@ func constantsChanged() string {
 	}
 	return ""
 }
+
+// relateZ re-represents the elements of a list (same elements, other projective representations) such that the product
+// of all Z coordinates is one while at least two of them are not one: one element is scaled by a random factor, a
+// second one by whatever makes the product one. Elements with Z = 0 are left alone.
+func relateZ(es []banderwagon.Element, rng *rand.Rand) {
+	if len(es) < 2 {
+		return
+	}
+	i := rng.Intn(len(es))
+	j := (i + 1 + rng.Intn(len(es)-1)) % len(es)
+	scale := func(k int, l *big.Int) {
+		X, Y, Z := es[k].VerifCoords()
+		es[k] = banderwagon.VerifFromCoords(FpFromBig(ref.MulP(FpToBig(&X), l)), FpFromBig(ref.MulP(FpToBig(&Y), l)), FpFromBig(ref.MulP(FpToBig(&Z), l)))
+	}
+	scale(i, randNonZeroP(rng))
+	prod := big.NewInt(1)
+	for k := range es {
+		_, _, Z := es[k].VerifCoords()
+		z := FpToBig(&Z)
+		if z.Sign() == 0 {
+			return
+		}
+		prod = ref.MulP(prod, z)
+	}
+	scale(j, ref.InvP(prod))
+}
